@@ -105,6 +105,23 @@ func (x *kExec) do(g string, op KOp) {
 }
 
 func genWorkerScenario(rng *rand.Rand, profile, mode string) any {
+	if profile == "stress" {
+		// free-running only: long programs of back-to-back Do / done pairs from a few goroutines, so that instances are
+		// started, joined and stopped thousands of times with real contention on the Worker's mutex (windows that lie
+		// between two statements without a hook point are only reachable this way)
+		sc := &KScenario{Profile: profile}
+		h := 0
+		for d, nd := 0, 2+rng.Intn(3); d < nd; d++ {
+			var ops []KOp
+			for i, n := 0, 120+rng.Intn(120); i < n; i++ {
+				h++
+				ops = append(ops, KOp{K: "do", H: h}, KOp{K: "done", H: h})
+			}
+			sc.Drivers = append(sc.Drivers, ops)
+		}
+		sc.NH = h
+		return sc
+	}
 	sc := &KScenario{Profile: profile}
 	nd := 2 + rng.Intn(2)
 	h := 0
